@@ -5,7 +5,7 @@ proofs : lean/PyAbel/Props/C11.lean (StepAnalytical and GaussianAnalytical: abel
          parameter value; built on Lemmas/Abel.lean and Mathlib's Gaussian integral)
 K      : StepAnalytical / GaussianAnalytical arrays vs the closed forms the theorems are about (evaluated in numpy from
          the theorem statements: 2A₀(hc(r₂²−x²) − hc(r₁²−x²)), σ√π A₀ e^{−x²/σ²})
-         lean/PyAbel/Props/C11Profiles.lean (TransformPair profiles 1, 2, 3, 5, 7: the coded `projection` expression, branch
+         lean/PyAbel/Props/C11Profiles.lean (TransformPair profiles 1, 2, 3, 4, 5, 7: the coded `projection` expression, branch
          by branch, is 2∫ source(√(x²+z²)) dz for every 0 < x < 1 — corollaries of C10.polynomial_abel)
 K      : … and the driver op `profile k x` (Model/Profiles.lean, the expressions the theorems are about) vs
          abel.tools.transform_pairs.profile<k> at random and special radii (breakpoints, the TransformPair end offsets)
@@ -78,8 +78,8 @@ def correspondence(ck, tier):
     from abel.tools import transform_pairs
     from abel.tools.analytical import TransformPair
     lines, refs = [], []
-    for k in (1, 2, 3, 5, 7):
-        xs = list(rng.uniform(1e-6, 1, size=60 if tier == "quick" else 600)) + [0.25, 0.5, np.nextafter(0.25, 1), np.nextafter(0.5, 1), 1e-8, 1 - 1e-8]
+    for k in (1, 2, 3, 4, 5, 7):
+        xs = list(rng.uniform(1e-6, 1, size=60 if tier == "quick" else 600)) + [0.25, 0.5, 0.7, np.nextafter(0.25, 1), np.nextafter(0.5, 1), np.nextafter(0.7, 1), np.nextafter(0.7, 0), 1e-8, 1 - 1e-8]
         tp = quiet(TransformPair, int(rng.integers(5, 200)), profile=k)         # the class: same functions on its own grid
         grid = tp.r.copy()
         grid[0] = 1.0e-8
@@ -280,12 +280,12 @@ def run(tier):
                       "x sigma / temperature / tol at random pixels (exact for Gaussian and O2, within 1.05·tol·ΣA·chord otherwise); "
                       "grid and layout facts. distinct = (suite, class/profile/name, parity/decile)")
     ck.cov["trusted_base"] = ["Lean 4.33 kernel", "axioms propext/Classical.choice/Quot.sound",
-                              "theorems cover StepAnalytical, GaussianAnalytical and TransformPair profiles 1, 2, 3, 5, 7 (as real functions; tied to the "
-                              "code by evaluating the Lean expressions in Float next to the shipped functions); profiles 4 and 6 and the "
+                              "theorems cover StepAnalytical, GaussianAnalytical and TransformPair profiles 1, 2, 3, 4, 5, 7 (as real functions; tied to the "
+                              "code by evaluating the Lean expressions in Float next to the shipped functions); profile 6 and the "
                               "sample images are quadrature-backed",
                               "sample images: the source function is rebuilt from the class's own peak table (checked against `func` at the "
                               "tested pixels) and integrated by scipy quad", "ApproxGaussian deviation bound (C10, measured)"]
-    ck.cov["unproved_clauses"] = ["TransformPair profiles 4 (rounded published coefficients) and 6 (not polynomial): quadrature", "SampleImage within tolerance (quadrature)"]
+    ck.cov["unproved_clauses"] = ["TransformPair profile 6 (not polynomial): quadrature", "SampleImage within tolerance (quadrature)"]
     ck.cov["source_fingerprint"] = source_fingerprint(["abel/tools/analytical.py", "abel/tools/transform_pairs.py"])
     ck.proofs("PyAbel.Props.C11")
     ck.proofs("PyAbel.Props.C11Profiles")
